@@ -4,3 +4,4 @@ import CC.Thm.C14
 #print axioms CC.Thm.C14.refill4_counter
 #print axioms CC.Thm.C14.refill_block
 #print axioms CC.Thm.C14.source_code_match
+#print axioms CC.Thm.C14.generated_refill4_eq
